@@ -176,6 +176,42 @@ std::string handle(const std::string& op, Args& a)
 			o << v1 << v2 << v3 << v4;
 		});
 	}
+	if(op == "c12.rev")
+	{
+		unsigned n = a.u64();
+		double x0 = a.dbl(), x1 = a.dbl();
+		a.end();
+		return run_forked([&](Out& o) {
+			for(int dir = 0; dir < 2; dir++)
+			{
+				auto rw = dir == 0 ? Compute_Gauss_Legendre_Roots_and_Weights(n, x0, x1) : Compute_Gauss_Legendre_Roots_and_Weights(n, x1, x0);
+				o << rw.size();
+				for(auto& p : rw)
+				{
+					o << p.size();
+					for(double v : p)
+						o << v;
+				}
+			}
+		});
+	}
+	if(op == "c12.rowsvals" || op == "c12.rowsfunc")
+	{
+		// rule-taking overloads on raw rows of any length (0, 1, 2, 3, transposed rule)
+		auto first = a.dbls();	 // values resp. polynomial coefficients
+		size_t nr  = a.u64();
+		std::vector<std::vector<double>> rows(nr);
+		for(auto& r : rows)
+			r = a.dbls();
+		a.end();
+		bool vals = op == "c12.rowsvals";
+		return run_forked([&](Out& o) {
+			if(vals)
+				o << Integrate_Gauss_Legendre(first, rows);
+			else
+				o << Integrate_Gauss_Legendre([&](double x) { return horner(first, x); }, rows);
+		});
+	}
 	if(op == "c12.sumvals")
 	{
 		auto v	= a.dbls();
